@@ -49,6 +49,7 @@ def _gen_scripted(ch):
         cap = ch.choice('cap2', (200, 1000, 1000))
     return dict(scenario='tcpcl_scripted', role=ch.choice('role', ('passive', 'active')), cfg=cfg, chunk_size=10240,
                 net=dict(tcp_capacity=cap, short_write_16=ch.choice('sshort', (0, 0, 4, 12))), peer_waits=ch.coin('peerwaits', 1, 2),
+                term_under_load=ch.choice('tul', (0, 0, 700, 3000)),
                 peer_mru=ch.choice('pmru', (1 << 20, 50, 300)), ops=ops, drain=ch.choice('drain', ('ack', 'refuse', 'mixed')),
                 terminate=ch.choice('sterm', (None, 'peer', 'user')))
 
@@ -414,6 +415,15 @@ def _drive_scripted(run, plan, har, rfc9174):
     # drain: complete what is open, answer everything, pop everything
     if state['partial'] is not None:
         finish_inbound()
+    if plan.get('term_under_load') and plan['terminate'] == 'peer' and not har.victim_closed() and not har.wld.capped and not har.hang:
+        # the peer ends the session at a moment when the agent's output is held back by a full socket buffer: a transfer has just
+        # been queued and the peer has not read yet; the reply waits behind the segments, everything is acknowledged afterwards
+        har.user_send(bytes([0x61 + len(har.queued) % 20]) * plan['term_under_load'])
+        har.deliver(rfc9174.encode(dict(kind='SESS_TERM', flags=0, reason=0)))
+        har.settle()
+        state['early_term'] = True
+        stats['probe.peer_term_under_load'] = 1
+        stats['wire.SESS_TERM'] = 1
     rounds = 0
     for _pass in range(3000):
         octets = har.from_v.total
@@ -432,6 +442,20 @@ def _drive_scripted(run, plan, har, rfc9174):
     har.user_pop_all()
     har.settle()
     run.final_idle = None
+    if state.get('early_term') and state['answered'] >= len(segments()) and not har.wld.capped and not har.hang:
+        if not har.victim_closed():
+            if not [msg for msg in har.vmsgs if msg['kind'] == 'SESS_TERM']:
+                run.viols.append(('idle', 'no-sess-term-reply-after-drain', 'peer SESS_TERM during a transfer got no reply although everything was acknowledged'))
+            elif plan.get('peer_waits'):
+                har.settle_all()
+                stats['probe.peer_waits_for_close'] = 1
+                if not har.xsock.rx_eof and not har.closed:
+                    run.viols.append(('idle', 'not-closed-by-itself', 'SESS_TERM received during a transfer and answered, every segment acknowledged, the peer waits, and the agent does not close'))
+            with har.wld.as_node(har.xnode):
+                har.xsock.close()
+            har.settle()
+            if not har.closed and not run.viols:
+                run.viols.append(('idle', 'not-closed-after-drain', 'SESS_TERM exchanged, peer closed, nothing outstanding, but the agent did not close'))
     if state['answered'] < len(segments()):
         stats['scripted.not_drained'] = 1
     elif not har.victim_closed() and not har.wld.capped and not har.hang:
